@@ -216,6 +216,12 @@ def build_crystal(spec):
     if r is None:
         return None
     L, pos, sym = r
+    # basis vectors at less than 35 degrees (or more than 145) to each other are discarded: for such unreduced bases spglib 2.7's
+    # relocate_BZ_grid_address (used by every phonopy mesh) writes past its own (mesh+1)^3 buffer - heap corruption inside the
+    # dependency, observed under valgrind (see DESIGN.md 8.2). Skewed bases are exercised where no mesh is involved (C05 'direct').
+    Ln = np.array(L, dtype=float) / np.linalg.norm(L, axis=1)[:, None]
+    if max(abs(float(Ln[0] @ Ln[1])), abs(float(Ln[0] @ Ln[2])), abs(float(Ln[1] @ Ln[2]))) > np.cos(np.radians(35.0)):
+        return None
     if spec.get("axperm"):
         # relabel the axes cyclically: the same crystal in a non-standard setting (e.g. tetragonal with the 4-fold axis along a)
         ap = [[0, 1, 2], [1, 2, 0], [2, 0, 1]][int(spec["axperm"]) % 3]
